@@ -13,7 +13,7 @@ from . import core, driver, gen, steps, streams, universe, workload
 
 PROP = "C10"
 LEVEL = "exploration"
-MEM_GIB = 3.0
+MEM_GIB = 4.0
 KINDS = ("sim", "bytesio", "buffered")
 
 TIERS = {
@@ -120,7 +120,7 @@ def _open_source(kind: str, data: bytes, budget, chunks):
     if kind == "bytesio":
         return streams.CountingBytesIO(data, budget=budget)
     raw = streams.SimRawSource(data, streams.seq_chunker(chunks or []), budget=budget)
-    return io.BufferedReader(raw, buffer_size=16)
+    return streams.AllocLimitedBufferedReader(raw, buffer_size=16)
 
 
 LAST_SITE = None
@@ -372,7 +372,7 @@ def finalize(stats, tier, runs, distinct, samples, wall):
     assumptions = [
         "finite input: the source delivers the corrupted bytes then EOF; read-all requests caused by corrupted negative lengths are served like a real stream",
         "allowed outcomes: an instance of T that re-encodes without raising, or SerialError/ValueError/OverflowError",
-        "RLIMIT_AS of the workers is 3 GiB: a single request of up to 2 GiB address space (the largest a legacy int32 length can ask for) still succeeds, larger ones and pre-allocation proportional to a hostile count raise MemoryError deterministically - and 16 workers cannot exhaust the sandbox",
+        "the buffered source kind is a real io.BufferedReader with a simulated allocator: one read request above 1 GiB raises MemoryError (BufferedReader.read(n) allocates n bytes up front; on a real machine the outcome depends on RAM, overcommit policy and rlimits - here it is decided deterministically); RLIMIT_AS 4 GiB per worker is only a safety net against pre-allocation proportional to a hostile count",
     ]
     problems = []
     n_ok, n_bad = stats.get("instances", 0), stats.get("discarded_by_prepass", 0)
